@@ -188,10 +188,30 @@ def replay_cache(kind, strategies=None):
             'maxes': (hint + [m for m in (1, 2, 3, 6) if m not in hint]) + ([float('inf')] if inf else []),
             'strategies': strategies or ['none', 'sorted', 'bucketmax'], 'depth': 4}
     rc, out, err = run_native('replay/cache_native.py', [json.dumps(args)], timeout=900)
+    res = None
     for line in out.splitlines():
       if line.startswith('REPLAY-RESULT '):
-        return json.loads(line[len('REPLAY-RESULT '):])
-    return {'replay_error': (err or out)[-600:]}
+        res = json.loads(line[len('REPLAY-RESULT '):])
+    if res is None:
+      return {'replay_error': (err or out)[-600:]}
+    if res.get('native_confirms'):
+      return res
+    # no sequential history fails: look for a two-thread schedule (lock-region / signalling clauses)
+    key = ob.label.split('/')[-1].split('[')[0]
+    if key in ('full_signal_at_max', 'full_signal_only_at_max', 'flag_implies_above_low', 'check_follows', 'resumes',
+               'never_signals_space', 'signals_space_at_most_once'):
+      only = 'sched-paused-at-quiescence'
+    else:
+      only = 'sched-no_raise,sched-conservation,sched-size_exact,sched-bound,sched-no_empty_entries'
+    rc, out, err = run_native('replay/cache_sched_native.py', ['--depth', '2', '--only', only], timeout=900)
+    for line in out.splitlines():
+      if line.startswith('BOUNDED-RESULT '):
+        r = json.loads(line[len('BOUNDED-RESULT '):])
+        if r['failures']:
+          return {'native_confirms': True, 'schedule': r['failures'][0], 'schedules_tried': r['evaluations'],
+                  'sequential_histories_tried': res.get('histories_tried')}
+        res['schedules_tried'] = r['evaluations']
+    return res
   return rep
 
 
